@@ -63,7 +63,7 @@ def scenarios(quick):
     # (one string per scenario: with two strings matching at every occurrence the page boundary would always fall to the same one)
     for nm_, src_ in (("hex-atom-after-jump", 'rule fastback { strings: $h = { 41 [1-2] 62 63 64 65 } condition: #h > 10 }'), ("regexp", 'rule reback { strings: $r = /A.{1,2}?bcde/ condition: #r > 10 }'),
                       ("hex-alternatives", 'rule altback { strings: $h = { 41 ( 78 | 78 79 ) 62 63 64 65 } condition: #h > 10 }')):
-        big2 = ["compiler 0", "add 0 - " + yv.hx(src_), "getrules 0 0", "cdestroy 0", "blob 5 " + yv.hx(b"AxbcdeAxybcde" * 2500)]
+        big2 = ["compiler 0", "add 0 - " + yv.hx(src_), "getrules 0 0", "cdestroy 0", "blob 5 " + yv.hx(b"AxbcdeAxybcde" * 6500)]      # 13 000 matches: the first notebook page holds about 7 000
         add("scan:growth:backward-verification:" + nm_, big2, ["scanner 0 0", "scan target=s0 via=mem ml=0 data=@5", "scan target=s0 via=mem ml=0 data=@5", "sdestroy 0"])
     # more API groups: include callback (file name stack, nested lexer buffers), atom quality table, add from bytes / file, rules-level defines + scan from fd
     incs = ["incclear", "incfile inc_a.yar " + yv.hx('include "inc_b.yar"\nrule ia { strings: $a = "ia" condition: $a }'), "incfile inc_b.yar " + yv.hx('rule ib { condition: true }')]
